@@ -63,7 +63,7 @@ let () =
       let args = Stdlib.String.sub l 4 (Stdlib.String.length l - 4) in
       (match all_sizes "tsn" args (fun init -> type_snprintf init o (nd flags)) with
        | Some buf ->
-         Printf.printf "tsn#%d rt %s\n" !lineno (sscanf_result (strip_nul buf) (Some sIZEOF_ATTR_UNION));
+         Printf.printf "tsn#%d rt %s\n" !lineno (sscanf_result (strip_nul buf) (Some attr_union_size));
          (match type_text o (nd flags) with
           | PrOk txt -> Printf.printf "tsn#%d garb ret=%d text=%s\n" !lineno (Stdlib.List.length txt) (hex_of_bytes txt)
           | PrLoop -> Printf.printf "tsn#%d garb LOOP\n" !lineno
@@ -84,6 +84,6 @@ let () =
       Printf.printf "ssc %s %s -> %s\n" hex asz (sscanf_result (bytes_of_hex hex) (if a < 0 then None else Some (n_of_int a)))
     | ["tstr"; a] ->
       let s = lit (obj_type_string (n_of_int (int_of_string a))) in
-      Printf.printf "tstr %s %s rt %s\n" a (hex_of_bytes s) (sscanf_result s (Some sIZEOF_ATTR_UNION))
+      Printf.printf "tstr %s %s rt %s\n" a (hex_of_bytes s) (sscanf_result s (Some attr_union_size))
     | _ -> ())
   done with End_of_file -> ()
